@@ -64,7 +64,7 @@ ASSUMPTIONS = [
     "shipped data are judged against ref/families.py (pinned by OEIS sequences) with the library's documented conventions for n <= 2",
 ]
 EXPECTED_PROBES = ["name_written_twice", "read_never_written", "torn_write", "crash_fired", "error_fired", "power_loss_dirty",
-                   "load_after_restart", "load_absent_stores", "chdir", "realfs_run", "from_db_union"]
+                   "load_after_restart", "load_absent_stores", "chdir", "realfs_run", "from_db_union", "concurrent_tasks"]
 
 _STATE = {"prepared": False, "dfa_memo": {}, "orig": {}}
 PREDS = {
@@ -277,6 +277,37 @@ def gen_ops(rng, tier):
     return ops
 
 
+def gen_concurrent(rng, tier):
+    """Two or three writer / reader tasks on one directory, interleaved at
+    I/O-call granularity (threads of one process: they share the loader memo)."""
+    maxdfa = 3 if tier == "quick" else 4
+    n = rng.choice([1, 2, 2, 3, 3][: 2 + maxdfa])
+    perms = [common.rand_perm(rng, n) for _ in range(rng.choice([2, 2, 3]))]
+    if rng.random() < 0.3:
+        perms.append(common.rand_perm(rng, rng.choice([1, 2, 3])))
+    names = ["a", "b"][: rng.choice([1, 1, 2])]
+    threads = []
+    for _ in range(rng.choice([2, 2, 3])):
+        ops = []
+        for _ in range(rng.randint(1, 4)):
+            r = rng.random()
+            if r < 0.3:
+                ops.append({"op": "store", "perm": rng.choice(perms), "with_dfa": False})
+            elif r < 0.55:
+                ops.append({"op": "load", "perm": rng.choice(perms)})
+            elif r < 0.65:
+                ops.append({"op": "from_db", "basis": [rng.choice(perms) for _ in range(2)]})
+            elif r < 0.7:
+                ops.append({"op": "create_db", "n": rng.choice([1, 2, 2, 3][: 1 + maxdfa])})
+            elif r < 0.85:
+                ops.append({"op": "write", "name": rng.choice(names), "n": rng.randint(0, 2), "pred": rng.choice(sorted(PREDS))})
+            else:
+                ops.append({"op": "read", "name": rng.choice(names), "n": rng.randint(0, 2), "which": rng.choice(["good", "bad"])})
+        threads.append({"ops": ops})
+    return {"kind": "concurrent", "fs": "sim", "threads": threads, "perms": perms,
+            "schedule": {"mode": "policy", "p": rng.choice([0.1, 0.3, 0.6, 0.9]), "seed": rng.getrandbits(48)}}
+
+
 def _placements(trace, rng, exhaustive, cap):
     """Single-fault placements for an I/O trace."""
     res = []
@@ -319,6 +350,8 @@ def cases(rng, tier):
             yield {"kind": "history", "fs": "sim", "ops": ops2, "faults": []}
             base_obs = _STATE.get("last_obs")
         yield {"kind": "history", "fs": "real", "ops": ops2, "faults": [], "expect_obs": base_obs}
+    if rng.random() < 0.35:
+        yield gen_concurrent(rng, tier)
     short = len(ops) <= 6
     single, _complete = _placements(trace, rng, short, 80 if tier == "quick" else 200)
     if short:
@@ -396,6 +429,8 @@ def execute(case):
             out.violation = core.Violation(*bad)
         out.digest = log.digest()
         return out
+    if case.get("kind") == "concurrent":
+        return _execute_concurrent(case)
     return _execute_history(case)
 
 
@@ -698,10 +733,193 @@ def _execute_history(case):
 _MISSING = object()
 
 
+def _execute_concurrent(case):
+    """Writer / reader tasks interleaved at every I/O call.  Oracle: nobody ever
+    gets an automaton of another language or a dataset that was never written
+    under that name (a failure that is reported - exception, {} - is acceptable
+    while others are writing); when everybody is done and the process restarts,
+    every database entry loads as its own automaton or is reported invalid."""
+    import random  # pylint: disable=import-outside-toplevel
+    import threading  # pylint: disable=import-outside-toplevel
+
+    from sim import threadsim  # pylint: disable=import-outside-toplevel
+
+    prepare("quick")
+    pm = common.lazy_permuta()
+    mb, mp = _modules()
+    pin = mp.PinWords
+    out = core.Outcome()
+    log = core.EventLog()
+    violations = []
+    fs = simfs.SimFS()
+    saved = {}
+    for mod, names in ((mb, ("open", "os")), (mp, ("open", "Path"))):
+        for nm in names:
+            saved[(mod, nm)] = mod.__dict__.get(nm, _MISSING)
+    mb.open = fs.open
+    mb.os = simfs.make_os_shim(fs, os)
+    mp.open = fs.open
+    mp.Path = simfs.make_path_class(fs)
+
+    def clear_memos():
+        cc = getattr(getattr(pin, "load_dfa_for_perm", None), "cache_clear", None)
+        if cc is not None:
+            cc()
+
+    clear_memos()
+    sdesc = case["schedule"]
+    if sdesc["mode"] == "segments":
+        policy = threadsim.SegmentPolicy(sdesc["segments"])
+    else:
+        policy = threadsim.RandomWalkPolicy(random.Random(sdesc["seed"]), sdesc["p"])
+    sched = threadsim.Sched(policy, [], log, max_steps=200_000)
+
+    def hook(_kind, _path):
+        if threading.current_thread().name[:4] == "sim-":
+            sched.yp(sched.current, "io")
+
+    fs.yield_hook = hook
+    written = {}  # abs path -> list of datasets ever written there
+    results = {}
+
+    def fresh(perm):
+        return pin.make_dfa_for_perm(pm.Perm(perm))
+
+    def judge_dfa(res, perms, where):
+        if res[0] != "v":
+            return
+        try:
+            want = None
+            for p in sorted(set(tuple(q) for q in perms), key=lambda t: (len(t), t)):
+                want = fresh(p) if want is None else want.union(fresh(p))
+            word = RD.distinguishing_word(res[1], want)
+        except Exception as exc:  # pylint: disable=broad-except
+            violations.append(core.Violation("load_wrong_language", {"op": "concurrent"}, f"{where}: not a usable automaton: {exc}"))
+            return
+        if word is not None:
+            violations.append(core.Violation("load_wrong_language", {"op": "concurrent"},
+                                             f"{where}: automaton for {perms} differs from a fresh computation on the word {word!r}"))
+
+    def make_fn(tdesc):
+        def fn(tid):
+            sched.yp(tid, "start")
+            res = results.setdefault(tid, [])
+            for op in tdesc["ops"]:
+                kind = op["op"]
+                try:
+                    if kind == "store":
+                        pin.store_dfa_for_perm(pm.Perm(op["perm"]))
+                        r = ["v", None]
+                    elif kind == "load":
+                        r = ["v", pin.load_dfa_for_perm(pm.Perm(op["perm"]))]
+                    elif kind == "from_db":
+                        r = ["v", pin.make_dfa_for_basis_from_db([pm.Perm(p) for p in op["basis"]])]
+                    elif kind == "create_db":
+                        pin.create_dfa_db_for_length(op["n"])
+                        r = ["v", None]
+                    elif kind == "write":
+                        pred = PREDS[op["pred"]]
+                        for w in ("good", "bad"):
+                            ds = {n: [p for p in permutations(range(n)) if pred(p) == (w == "good")] for n in range(op["n"] + 1)}
+                            written.setdefault(fs.abspath(f"{op['name']}_{w}_len{op['n']}.json"), []).append(ds)
+                        mb.write_bisc_files(op["n"], lambda perm, f=pred: f(tuple(perm)), op["name"])
+                        r = ["v", None]
+                    else:
+                        r = ["v", mb.read_bisc_file(f"{op['name']}_{op['which']}_len{op['n']}")]
+                except threadsim.SimAbort:
+                    raise
+                except Exception as exc:  # pylint: disable=broad-except
+                    r = ["exc", type(exc).__name__, str(exc)[:120]]
+                res.append(r)
+                sched.yp(tid, "opdone")
+        return fn
+
+    buf = io.StringIO()
+    try:
+        with contextlib.redirect_stdout(buf):
+            for tid, tdesc in enumerate(case["threads"]):
+                sched.spawn(tid, make_fn(tdesc))
+            sched.run(wall_timeout=600)
+            for t in sched.threads.values():
+                if t.exc is not None:
+                    raise core.HarnessError(f"exception in harness thread code: {t.exc!r}")
+            fs.yield_hook = None
+            if sched.abort is not None:
+                violations.append(core.Violation("no_progress" if sched.abort == "budget" else "deadlock", {"op": "concurrent"},
+                                                 "concurrent tasks did not finish"))
+            else:
+                for tid, tdesc in enumerate(case["threads"]):
+                    for op, r in zip(tdesc["ops"], results.get(tid, [])):
+                        if op["op"] == "load":
+                            judge_dfa(r, [op["perm"]], f"thread {tid} load")
+                        elif op["op"] == "from_db":
+                            judge_dfa(r, op["basis"], f"thread {tid} from_db")
+                        elif op["op"] == "read" and r[0] == "v" and r[1]:
+                            path = fs.abspath(f"{op['name']}_{op['which']}_len{op['n']}.json")
+                            if not _dataset_ok_types(r[1], pm) or _plain_dataset(r[1]) not in written.get(path, []):
+                                violations.append(core.Violation("read_wrong_data", {"op": "concurrent"},
+                                                                 f"thread {tid} read {path}: {str(r[1])[:120]} was never written under that name"))
+                        log.add("res", tid, op["op"], r[0])
+                # quiescence: a new process looks at what is on disk
+                clear_memos()
+                stored = set()
+                for tdesc in case["threads"]:
+                    for op in tdesc["ops"]:
+                        if op["op"] in ("store", "load"):
+                            stored.add(tuple(op["perm"]))
+                        elif op["op"] == "from_db":
+                            stored.update(tuple(q) for q in op["basis"])
+                for perm in sorted(stored, key=lambda t: (len(t), t)):
+                    try:
+                        r = ["v", pin.load_dfa_for_perm(pm.Perm(perm))]
+                    except Exception as exc:  # pylint: disable=broad-except
+                        r = ["exc", type(exc).__name__, str(exc)[:120]]
+                    judge_dfa(r, [perm], "after all tasks finished, fresh process, load")
+                    log.add("final", perm, r[0])
+                for path, datasets in sorted(written.items()):
+                    name = path.rsplit("/", 1)[-1][:-5]
+                    got = mb.read_bisc_file(name)
+                    if got and (not _dataset_ok_types(got, pm) or _plain_dataset(got) not in datasets):
+                        violations.append(core.Violation("read_wrong_data", {"op": "concurrent"},
+                                                         f"after all tasks finished {path} reads as {str(got)[:120]}, never written under that name"))
+    finally:
+        for (mod, nm), val in saved.items():
+            if val is _MISSING:
+                mod.__dict__.pop(nm, None)
+            else:
+                setattr(mod, nm, val)
+        clear_memos()
+    out.steps = sched.steps
+    out.extra["segments"] = sched.segments
+    out.fault("io_interleaving", sched.switches)
+    out.probe("concurrent_tasks")
+    out.nontrivial = sched.switches > 0
+    out.digest = log.digest()
+    out.abstraction = "conc" + str(hash(tuple(tuple(s) for s in sched.segments[:40])))
+    if violations:
+        out.violation = violations[0]
+    return out
+
+
+def freeze(case, out):
+    if case.get("kind") != "concurrent":
+        return None
+    segs = out.extra.get("segments")
+    if not segs:
+        return None
+    case["schedule"] = {"mode": "segments", "segments": segs}
+    return case
+
+
 # --- minimisation ------------------------------------------------------------------------------
 
 
 def shrink_targets(case):
+    if case.get("kind") == "concurrent":
+        t = [["threads", i, "ops"] for i in range(len(case["threads"]))]
+        if case["schedule"]["mode"] == "segments":
+            t.append(["schedule", "segments"])
+        return t
     if case.get("kind") != "history":
         return []
     return [["ops"], ["faults"]]
